@@ -456,6 +456,59 @@ theorem WF_setdefault {d : PyDict κ ν} (h : WF eq d) (k : κ) (v : ν) : WF eq
     rw [← set_of_not_contains hc]
     exact WF_set h k v
 
+theorem setdefault_fst (d : PyDict κ ν) (k : κ) (v : ν) : (setdefault eq d k v).1 = (get? eq d k).getD v := by
+  unfold setdefault
+  cases get? eq d k <;> rfl
+
+/-- `d[k] = v` where `(k, v0)` was just appended -/
+theorem set_append_self (hrefl : ∀ a, eq a a = true) (d : PyDict κ ν) (k : κ) (v0 v : ν) (hc : contains eq d k = false) :
+    set eq (d ++ [(k, v0)]) k v = d ++ [(k, v)] := by
+  induction d with
+  | nil => simp [set_cons, hrefl]
+  | cons x r ih =>
+    obtain ⟨k0, v1⟩ := x
+    have h' := (contains_false_iff _ _).1 hc
+    have h0 : eq k0 k = false := h' (k0, v1) List.mem_cons_self
+    rw [List.cons_append, set_cons, h0]
+    simp only [Bool.false_eq_true, if_false, List.cons_append]
+    rw [ih ((contains_false_iff _ _).2 (fun p hp => h' p (List.mem_cons_of_mem _ hp)))]
+
+/-- `d.setdefault(k, v0); d[k] = v` is `d[k] = v` -/
+theorem set_setdefault (hrefl : ∀ a, eq a a = true) (d : PyDict κ ν) (k : κ) (v0 v : ν) :
+    set eq (setdefault eq d k v0).2 k v = set eq d k v := by
+  unfold setdefault
+  cases hg : get? eq d k with
+  | some v' => rfl
+  | none =>
+    have hc : contains eq d k = false := by simp [contains, hg]
+    simp only []
+    rw [set_append_self hrefl d k v0 v hc, set_of_not_contains hc]
+
+/-- `d[k] = a; d[k] = b` is `d[k] = b` -/
+theorem set_set (hrefl : ∀ a, eq a a = true) (d : PyDict κ ν) (k : κ) (a b : ν) : set eq (set eq d k a) k b = set eq d k b := by
+  induction d with
+  | nil => simp [set_cons, hrefl]
+  | cons x r ih =>
+    obtain ⟨k0, v0⟩ := x
+    rw [set_cons, set_cons]
+    cases h0 : eq k0 k
+    · simp only [Bool.false_eq_true, if_false, set_cons, h0, ih]
+    · simp [set_cons, h0]
+
+theorem contains_erase_self (hk : KeyEq eq) {d : PyDict κ ν} (h : WF eq d) (k : κ) : contains eq (erase eq d k) k = false := by
+  unfold contains
+  rw [get?_erase hk h, hk.refl]
+  rfl
+
+theorem keys_erase (hk : KeyEq eq) {d : PyDict κ ν} (h : WF eq d) (k : κ) :
+    keys (erase eq d k) = (keys d).filter (fun a => !(eq a k)) := by
+  rw [erase_eq_filter hk h]
+  simp only [keys, List.filter_map]
+  rfl
+
+theorem isEmpty_keys (d : PyDict κ ν) : (keys d).isEmpty = isEmpty d := by
+  cases d <;> rfl
+
 theorem WF_append_singleton {d : PyDict κ ν} (h : WF eq d) {k : κ} (hc : contains eq d k = false) (v : ν) :
     WF eq (d ++ [(k, v)]) := by
   rw [← set_of_not_contains hc]; exact WF_set h k v
@@ -498,6 +551,63 @@ theorem forIn_id_yield (l : List α) (init : β) (f : α → β → Id (ForInSte
   | cons x r ih =>
     rw [List.forIn_cons, hf]
     exact ih (g init x)
+
+/-- a search loop in a pure function: the body leaves (`return`) at the first element satisfying `p` and otherwise keeps the
+state it started with -/
+theorem forIn_id_first (l : List α) (s0 : β) (f : α → β → Id (ForInStep β)) (p : α → Bool) (leave : α → β)
+    (hf : ∀ x, f x s0 = pure (if p x then ForInStep.done (leave x) else ForInStep.yield s0)) :
+    forIn l s0 f = pure (match l.find? p with | some x => leave x | none => s0) := by
+  induction l with
+  | nil => rfl
+  | cons x r ih =>
+    rw [List.forIn_cons, hf, List.find?_cons]
+    cases p x
+    · exact ih
+    · rfl
+
+/-- the first element on which `test` answers `True`; a raising test ends the search with its exception -/
+def firstM (test : α → Except PyExc Bool) : List α → Except PyExc (Option α)
+  | [] => .ok none
+  | x :: r =>
+    match test x with
+    | .error e => .error e
+    | .ok true => .ok (some x)
+    | .ok false => firstM test r
+
+/-- the same in `Except PyExc`, where evaluating the test may raise -/
+theorem forIn_except_first (l : List α) (s0 : β) (f : α → β → Except PyExc (ForInStep β)) (test : α → Except PyExc Bool) (leave : α → β)
+    (hf : ∀ x, f x s0 = (test x).map (fun b => if b = true then ForInStep.done (leave x) else ForInStep.yield s0)) :
+    forIn l s0 f = (firstM test l).map (fun o => match o with | some x => leave x | none => s0) := by
+  induction l with
+  | nil => rfl
+  | cons x r ih =>
+    rw [List.forIn_cons, hf, firstM]
+    cases h : test x with
+    | error e => rfl
+    | ok b =>
+      cases b
+      · simp only [Except.map, bind, Except.bind, Bool.false_eq_true, if_false]
+        exact ih
+      · rfl
+
+theorem firstM_of_ok (test : α → Except PyExc Bool) (p : α → Bool) (l : List α) (h : ∀ x ∈ l, test x = .ok (p x)) :
+    firstM test l = .ok (l.find? p) := by
+  induction l with
+  | nil => rfl
+  | cons x r ih =>
+    rw [firstM, List.find?_cons, h x List.mem_cons_self]
+    cases p x
+    · exact ih (fun y hy => h y (List.mem_cons_of_mem _ hy))
+    · rfl
+
+theorem firstM_pure (p : α → Bool) (l : List α) : firstM (fun x => .ok (p x)) l = .ok (l.find? p) := by
+  induction l with
+  | nil => rfl
+  | cons x r ih =>
+    rw [firstM, List.find?_cons]
+    cases p x
+    · exact ih
+    · rfl
 
 /-- appending the selected, mapped elements -/
 theorem foldl_collect (l : List α) (p : α → Bool) (h : α → β) (acc : List β) :
